@@ -36,6 +36,31 @@ Theorem C18_optional_null : forall SC H allow E f chain i s pre fd0 post t0 d r 
 Proof. exact struct_optional_null. Qed.
 Print Assumptions C18_optional_null.
 
+(** array elements (fix C18-b): a dangling element of Vec<T> does not fail the array — it is left out when T does not
+    read the null object, and is the null object when T does *)
+Theorem C18_element_skipped : forall SC H allow E f chain t i g pre post e0,
+  resolving SC t = true -> dangling E i -> chain_has i g chain = false ->
+  read SC H allow E (S f) chain t PNull = TErr e0 ->
+  read SC H allow E (S (S f)) chain (TVec t) (PArr (pre ++ PRef i g :: post))
+  = read SC H allow E (S (S f)) chain (TVec t) (PArr (pre ++ post)).
+Proof. exact element_dangling_skipped. Qed.
+Print Assumptions C18_element_skipped.
+
+Theorem C18_element_null : forall SC H allow E f chain t i g pre post v0,
+  resolving SC t = true -> dangling E i -> chain_has i g chain = false ->
+  read SC H allow E (S f) chain t PNull = TOk v0 ->
+  read SC H allow E (S (S f)) chain (TVec t) (PArr (pre ++ PRef i g :: post))
+  = read SC H allow E (S (S f)) chain (TVec t) (PArr (pre ++ PNull :: post)).
+Proof. exact element_dangling_null. Qed.
+Print Assumptions C18_element_null.
+
+(** the derived enums are among the holders that follow a reference (fix C18-c; computed on the generated schemas) *)
+Theorem C18_enums_resolve :
+  forallb (fun i => resolving gen_schemas (TNameEnum (N.of_nat i))) (seq 0 (length (nenums gen_schemas))) = true /\
+  forallb (fun i => resolving gen_schemas (TIntEnum (N.of_nat i))) (seq 0 (length (ienums gen_schemas))) = true.
+Proof. vm_compute. split; reflexivity. Qed.
+Print Assumptions C18_enums_resolve.
+
 (** holders that do not follow the reference (Ref, Lazy, Primitive) keep it: reading succeeds *)
 Theorem C18_deferred : forall SC H allow E f chain t i g, deferring t = true ->
   exists v, read SC H allow E (S (S f)) chain (TOption t) (PRef i g) = TOk (VSome v).
